@@ -47,6 +47,7 @@ type GRemoteAccess struct {
 	PoolDef  string
 	WebVPN   bool   // also in certificate-group-map of webvpn
 	UseTG    string // device only: bound to the tunnel-group of another entry; own objects absent
+	AAA      bool   // general-attributes name the LDAP server group LDAP_KV
 }
 
 const certEKU = "extended-key-usage co 1.3.6.1.4.1.311.20.2.2"
@@ -67,6 +68,10 @@ type GVPN struct {
 	RA      []*GRemoteAccess
 	Users   []*GUser
 	Sysopt  bool // no sysopt connection permit-vpn
+	// LDAP server group LDAP_KV with attribute map LDAPMAP, maintained by
+	// hand on the device and only named by Netspoc: 0 = none, -1 = Netspoc
+	// form ("host X"), n > 0 = device form with n hosts.
+	LDAPHosts int
 }
 
 func cloneACL(a *GACL) *GACL {
@@ -80,7 +85,7 @@ func (v *GVPN) clone() *GVPN {
 	if v == nil {
 		return nil
 	}
-	n := &GVPN{MapName: v.MapName, Intf: v.Intf, Sysopt: v.Sysopt}
+	n := &GVPN{MapName: v.MapName, Intf: v.Intf, Sysopt: v.Sysopt, LDAPHosts: v.LDAPHosts}
 	for _, e := range v.Entries {
 		c := *e
 		c.ACL = cloneACL(e.ACL)
@@ -196,6 +201,18 @@ func (v *GVPN) Text() string {
 			b.WriteString(" " + a + "\n")
 		}
 	}
+	switch {
+	case v.LDAPHosts < 0:
+		b.WriteString("aaa-server LDAP_KV protocol ldap\naaa-server LDAP_KV host X\n ldap-attribute-map LDAPMAP\n" +
+			"ldap attribute-map LDAPMAP\n map-name memberOf Group-Policy\n")
+	case v.LDAPHosts > 0:
+		b.WriteString("aaa-server LDAP_KV protocol ldap\n")
+		for i := 0; i < v.LDAPHosts; i++ {
+			fmt.Fprintf(&b, "aaa-server LDAP_KV (%s) host 10.2.8.%d\n ldap-base-dn DC=example,DC=com\n ldap-scope subtree\n"+
+				" ldap-naming-attribute dNSHostName\n ldap-login-password *****\n ldap-login-dn CN=VPN,OU=Admin,DC=example,DC=com\n ldap-attribute-map LDAPMAP\n", v.Intf, 16+i)
+		}
+		b.WriteString("ldap attribute-map LDAPMAP\n map-name memberOf Group-Policy\n")
+	}
 	poolSeen := map[string]bool{}
 	for _, r := range v.RA {
 		if r.UseTG != "" {
@@ -239,6 +256,9 @@ func (v *GVPN) Text() string {
 			typ = "ipsec-l2l"
 		}
 		fmt.Fprintf(&b, "tunnel-group %s type %s\ntunnel-group %s general-attributes\n default-group-policy %s\n", r.TG, typ, r.TG, r.GP)
+		if r.AAA && v.LDAPHosts != 0 {
+			b.WriteString(" authentication-server-group LDAP_KV\n")
+		}
 		if len(r.TGAttrs) > 0 {
 			fmt.Fprintf(&b, "tunnel-group %s ipsec-attributes\n", r.TG)
 			for _, a := range r.TGAttrs {
@@ -369,6 +389,14 @@ func (g *Gen) TargetVPN(intf string) *GVPN {
 		v.Users = append(v.Users, u)
 	}
 	v.Sysopt = g.Rng.Intn(3) == 0
+	// Every second configuration with remote access authenticates its
+	// first entry against a hand-maintained LDAP server group (decided by
+	// generated content, not by a further draw, so that the random stream
+	// of all other constructs stays as it was).
+	if len(v.RA) > 0 && (strings.HasSuffix(v.RA[0].GPAttrs[1], " 60") || strings.HasSuffix(v.RA[0].GPAttrs[1], " 120")) {
+		v.LDAPHosts = -1
+		v.RA[0].AAA = true
+	}
 	return v
 }
 
